@@ -8,6 +8,6 @@ for v in a b; do n=$( [ $v = a ] && echo $s1 || echo $s2 ); mkdir -p seeded/$p$n
   echo '{"seed":"'$p$n'","property":"'$p'","origin":"later-wave sub-agent in scratch worktree /tmp/wt2/'$p' at repo HEAD '$head' (given only the property text)"}' > seeded/$p$n/meta.json; done
 git -C /repo worktree remove --force /tmp/wt2/$p
 for n in $s1 $s2; do
-  if ! git -C /repo apply --check seeded/$p$n/patch.diff 2>/dev/null; then bash tools/rebase_seed.sh $p$n | tail -1; fi
+  if ! git -C /repo apply --check /verif/seeded/$p$n/patch.diff 2>/dev/null; then bash tools/rebase_seed.sh $p$n | tail -1; fi
   timeout 3000 /venv/bin/python tools/seed.py verify $p$n --checks $checks 2>&1 | tail -4 | cut -c1-400
 done
